@@ -4,6 +4,7 @@ import (
 	"context"
 	"fmt"
 	"io"
+	"path/filepath"
 	"strings"
 
 	"github.com/ludo-technologies/pyscn/app"
@@ -542,14 +543,63 @@ func (c *CheckCommand) checkClones(cmd *cobra.Command, args []string) (int, erro
 	return issueCount, nil
 }
 
-// checkCircularDependencies runs circular dependency detection and returns issue count
+// checkCircularDependencies runs circular dependency detection on every target
+// and returns the total issue count
 func (c *CheckCommand) checkCircularDependencies(cmd *cobra.Command, args []string) (int, error) {
-	// Determine project root (default to current directory if no args)
-	projectRoot := "."
-	if len(args) > 0 {
-		projectRoot = args[0]
+	totalCycles := 0
+	for _, projectRoot := range dependencyProjectRoots(args) {
+		cycles, err := c.checkCircularDependenciesIn(cmd, projectRoot)
+		if err != nil {
+			return 0, err
+		}
+		totalCycles += cycles
+	}
+	return totalCycles, nil
+}
+
+// dependencyProjectRoots returns the targets to look for import cycles in: each
+// target is a project root of its own (the current directory if there is none).
+// A target named again, or lying inside another target, is covered already.
+func dependencyProjectRoots(args []string) []string {
+	if len(args) == 0 {
+		return []string{"."}
 	}
 
+	absPaths := make([]string, len(args))
+	for i, arg := range args {
+		absPaths[i] = filepath.Clean(arg)
+		if abs, err := filepath.Abs(arg); err == nil {
+			absPaths[i] = abs
+		}
+	}
+
+	var roots []string
+	for i, arg := range args {
+		covered := false
+		for j := range args {
+			if j == i {
+				continue
+			}
+			rel, err := filepath.Rel(absPaths[j], absPaths[i])
+			if err != nil {
+				continue
+			}
+			if rel == "." {
+				// Same target: the first mention counts
+				covered = covered || j < i
+			} else if rel != ".." && !strings.HasPrefix(rel, ".."+string(filepath.Separator)) {
+				covered = true
+			}
+		}
+		if !covered {
+			roots = append(roots, arg)
+		}
+	}
+	return roots
+}
+
+// checkCircularDependenciesIn runs circular dependency detection below one project root
+func (c *CheckCommand) checkCircularDependenciesIn(cmd *cobra.Command, projectRoot string) (int, error) {
 	// Create module analyzer with check-optimized options
 	opts := &analyzer.ModuleAnalysisOptions{
 		ProjectRoot:       projectRoot,
